@@ -63,6 +63,16 @@ def run_program(prog, seed, sg=None, repeat_fixed=1):
                 put(m.running_mean.data, tag + ".rm"); put(m.running_var.data, tag + ".rv")
                 m.eval()
                 put_t(m(xb), tag + ".eval_out")
+        elif k == "apply_init":
+            layers = [nn.Linear(3, 4), nn.Tanh(), nn.Linear(4, 4), nn.ReLU(), nn.Linear(4, 2), nn.Linear(2, 2), nn.Linear(2, 3)]
+            model = nn.Sequential(*layers[:s["n"]])
+
+            def init_weights(mod):
+                if isinstance(mod, nn.Linear):
+                    getattr(nn.init, s["fn"])(mod.weight)
+            model.apply(init_weights)
+            for p in model.parameters():
+                put_t(p, tag)
         elif k == "dropout":
             m = nn.Dropout(s["p"])
             x = Tensor(np.arange(1, 1 + int(np.prod(s["shape"])), dtype=np.float32).reshape(s["shape"]), requires_grad=True)
